@@ -847,7 +847,32 @@ def rule_clocking_ffset(repo):
     return rule_ffset(repo)
 
 
-RULES = [rule_wiring, rule_grant, rule_siblings, rule_options, rule_clocking, rule_clocking_ffset]
+# the arbiter's rotate-left is built from SLICE connections (grants[0:n-1] -> priority_reg.in_[1:n], grants[n-1] -> in_[0]) and its
+# pointer is a flopped signal: the wiring R-C19-wiring extracts only exists in simulation if slice nets are resolved, given a
+# net block that drives every reader, and the register is flipped -- also when the arbiter sits deeper in the hierarchy or is
+# installed / wired after elaboration.  These clauses are decided by C08 / C07 and run here by dependency.
+def rule_slice_nets_collected(repo):
+    from rules.c08 import rule_collectors
+    return rule_collectors(repo)
+
+
+def rule_slice_nets_driven(repo):
+    from rules.c08 import rule_residence
+    return rule_residence(repo)
+
+
+def rule_late_connections(repo):
+    from rules.c08 import rule_symmetric
+    return rule_symmetric(repo)
+
+
+def rule_pointer_flipped(repo):
+    from rules.c07 import rule_flip_cover
+    return rule_flip_cover(repo)
+
+
+RULES = [rule_wiring, rule_grant, rule_siblings, rule_options, rule_clocking, rule_clocking_ffset,
+         rule_slice_nets_collected, rule_slice_nets_driven, rule_late_connections, rule_pointer_flipped]
 THOROUGH_RULES = [rule_grant_larger]
 
 
